@@ -882,7 +882,7 @@ pub fn scenarios(prop: &str, tier: &str) -> Vec<Cfg> {
                 "C10" => "C10",
                 _ => "C16",
             };
-            let d = if thorough { 12 } else { 8 };
+            let d = if thorough { 9 } else { 8 };
             let delta = if thorough { 4 } else { 3 };
             let kinds: Vec<Kind> = if p == "C16" {
                 vec![Kind::Bo(1), Kind::Bo(2), Kind::Bo(3), Kind::Tbo(1), Kind::Tbo(2), Kind::Tbo(3), Kind::BoZ(1), Kind::BoZ(2), Kind::BoZ(3)]
@@ -897,7 +897,7 @@ pub fn scenarios(prop: &str, tier: &str) -> Vec<Cfg> {
                 let lens: Vec<usize> = if p == "C16" { vec![n + 1, n + 4, 1000] } else { vec![0, 1, n + 2] };
                 for len in lens {
                     let hint = if len == 1000 { HintShape::Unknown } else { HintShape::Exact };
-                    let mut c = adapter_cfg(p, k, len, hint, if p == "C16" && thorough { 13 } else { d }, delta);
+                    let mut c = adapter_cfg(p, k, len, hint, if p == "C16" && thorough { 9 } else { d }, delta);
                     if p == "C16" {
                         // completing futures is the interesting dimension here
                         c.costly = ops::FEED_UP | ops::POLL_NEW;
@@ -1432,6 +1432,9 @@ pub fn scenarios(prop: &str, tier: &str) -> Vec<Cfg> {
     // augmented scenario runs `cut` levels shallower next to the unchanged original.
     let cut: usize = match (prop, thorough) {
         ("C02", false) | ("C04", false) | ("C05", false) | ("C08", false) | ("C12", false) | ("C15", false) => 1,
+        // the thorough tier keeps its deeper original scenarios and runs the augmented ones at the
+        // depth of the quick tier's originals
+        (_, true) => 2,
         _ => 0,
     };
     let mut shallow: Vec<Cfg> = vec![];
@@ -1485,7 +1488,7 @@ pub fn scenarios(prop: &str, tier: &str) -> Vec<Cfg> {
         }
         if a.costly == 0 {
             // no deviation classes so far: everything was free, the additions get a budget of their own
-            a.delta = if thorough { 2 } else { 1 };
+            a.delta = 1;
         }
         a.ops |= added;
         a.costly |= added;
@@ -1511,6 +1514,9 @@ pub fn scenarios(prop: &str, tier: &str) -> Vec<Cfg> {
         for c in &v {
             if c.prefill.len() <= 8 || matches!(prop, "C03" | "C06") {
                 let mut d = c.clone();
+                if !matches!(prop, "C03" | "C05" | "C06" | "C18") && d.depth > 4 {
+                    d.depth -= 1;
+                }
                 d.release_wakers = true;
                 d.name = format!("{} <children release their wakers>", d.name);
                 dup.push(d);
